@@ -7,6 +7,8 @@ import XV.Lemmas.InvLive
 import XV.Lemmas.InvLedger
 import XV.Lemmas.PlayFull
 import XV.Lemmas.PlayKeysRun
+import XV.Lemmas.Repost
+import XV.Lemmas.WalkSkip
 /-!
 C02 — token conservation: supply changes only by coinbase, every token is in one place.
 Theorems about the UTXO table of the L1 chain model. `sumU` is the sum of all rows of table "U";
@@ -2114,7 +2116,7 @@ theorem walk_shape (e : Env) (s : St) (lh : Int) (dest : Nat) (prune : Bool) :
        if !r1.2 then (r1.1, false) else
        let r2 := walk.todoAll e lh ut.2 r1.1
        if !r2.2 then (r2.1, false) else
-       (s.pool.foldl (fun st i => (doTx e st lh i).1) r2.1, true)) := by rfl
+       ((repostList e s).foldl (fun st i => (doTx e st lh i).1) r2.1, true)) := by rfl
 
 /-- step 2 of `walk`: the blocks to undo are the blocks that end the confirmed log (newest first) -/
 theorem undoAll_Ledger (e : Env) (prune : Bool) (undo : List Nat) (st : St) (C0 : List Nat)
@@ -2184,18 +2186,18 @@ theorem readmit_Ledger (e : Env) (lh : Int) (pool : List Nat) (st : St) (C : Lis
     rw [h.led.insSpent i (List.mem_append_left _ hiC) r hr] at hu
     cases hu
 
-/-- **`walk` keeps the ledger invariant**, whatever its outcome (refused undo, failing block, success): the pool is rolled
-back, the blocks that end the confirmed log are undone (`hundo` ties the ghost log to the blocks `walk` undoes), the
-blocks of the new branch are applied (`hnd`, `hblk`: distinct ids not confirmed below the fork, award shape), the pool is re-submitted (`hre`: a pending transaction that the new branch confirms has an input). -/
-theorem walk_Ledger (e : Env) (s : St) (lh : Int) (dest : Nat) (prune : Bool) (C C0 : List Nat) (h : Ledger e s C)
+/-- **the block part of `walk` (roll-back of the pool, undo loop, apply loop: `walkCore`) keeps the ledger invariant**,
+whatever its outcome: the pool is rolled back, the blocks that end the confirmed log are undone (`hundo` ties the ghost log
+to the blocks `walk` undoes), the blocks of the new branch are applied (`hnd`, `hblk`: distinct ids not confirmed below the
+fork, award shape). The pool is empty afterwards. -/
+theorem walkCore_Ledger (e : Env) (s : St) (lh : Int) (dest : Nat) (prune : Bool) (C C0 : List Nat) (h : Ledger e s C)
     (hundo : C = C0 ++ blockTxs e (undoTodo e s.pointer dest).1.reverse)
     (hnd : (C0 ++ blockTxs e (undoTodo e s.pointer dest).2).Nodup)
     (hblk : ∀ bi ∈ (undoTodo e s.pointer dest).2, (∀ i ∈ (e.block bi).txs, (e.tx i).id = i) ∧
-      (∀ i ∈ (e.block bi).txs, (e.tx i).coinbase = true → (e.tx i).ins = [] ∧ feeOf (e.tx i).outs = 0))
-    (hre : ∀ i ∈ s.pool, i ∈ C0 ++ blockTxs e (undoTodo e s.pointer dest).2 → (e.tx i).ins ≠ []) :
-    ∃ C', Ledger e (walk e s lh dest prune).1 C' ∧
-      ((walk e s lh dest prune).2 = true → C' = C0 ++ blockTxs e (undoTodo e s.pointer dest).2) := by
-  rw [walk_shape]
+      (∀ i ∈ (e.block bi).txs, (e.tx i).coinbase = true → (e.tx i).ins = [] ∧ feeOf (e.tx i).outs = 0)) :
+    ∃ C', Ledger e (XV.Crash.walkCore e s lh dest prune).1 C' ∧
+      ((XV.Crash.walkCore e s lh dest prune).2 = true → C' = C0 ++ blockTxs e (undoTodo e s.pointer dest).2) := by
+  unfold XV.Crash.walkCore XV.Crash.rolledBack
   simp only
   -- step 1: roll the pool back
   have hl := h.led
@@ -2223,19 +2225,91 @@ theorem walk_Ledger (e : Env) (s : St) (lh : Int) (dest : Nat) (prune : Bool) (C
     have hC1 := u3 hr1
     rw [hC1] at u1
     -- step 3: apply blocks
-    obtain ⟨C2, t1, t2, t3⟩ := todoAll_Ledger e lh (undoTodo e s.pointer dest).2 _ C0 u1 u2 hnd hblk
-    cases hr2 : (walk.todoAll e lh (undoTodo e s.pointer dest).2
-        (walk.undoAll e prune (undoTodo e s.pointer dest).1
-          { (s.pool.reverse.foldl (fun st i => undoTx e st (e.tx i)) s) with pool := [] }).1).2 with
-    | false => exact ⟨C2, by simpa [hr2] using t1, by simp [hr2]⟩
-    | true =>
-      simp only [hr2, Bool.not_true, Bool.false_eq_true, ↓reduceIte]
-      have hC2 := t3 hr2
-      rw [hC2] at t1
-      -- step 4: re-submit the pool
-      refine ⟨_, readmit_Ledger e lh s.pool _ _ t1 ?_, fun _ => rfl⟩
-      intro i hi
-      exact ⟨hl.idEq i (List.mem_append_right _ hi), h.poolNonCoinbase i hi, hre i hi⟩
+    obtain ⟨C2, t1, _, t3⟩ := todoAll_Ledger e lh (undoTodo e s.pointer dest).2 _ C0 u1 u2 hnd hblk
+    exact ⟨C2, t1, t3⟩
+
+/-- **`walk` with ANY re-admission list `L` taken from the old pool keeps the ledger invariant** — the form of which
+every walk theorem below is an instance (`walk e` re-admits `repostList e s`, `walk (e.withSkip l)` the old pool without
+`l`).
+`hre`: a re-submitted transaction that the new branch confirms has a token input (then its re-admission is refused: the
+input is spent). -/
+theorem walkL_Ledger (e : Env) (s : St) (lh : Int) (dest : Nat) (prune : Bool) (C C0 : List Nat) (h : Ledger e s C)
+    (hundo : C = C0 ++ blockTxs e (undoTodo e s.pointer dest).1.reverse)
+    (hnd : (C0 ++ blockTxs e (undoTodo e s.pointer dest).2).Nodup)
+    (hblk : ∀ bi ∈ (undoTodo e s.pointer dest).2, (∀ i ∈ (e.block bi).txs, (e.tx i).id = i) ∧
+      (∀ i ∈ (e.block bi).txs, (e.tx i).coinbase = true → (e.tx i).ins = [] ∧ feeOf (e.tx i).outs = 0))
+    (L : List Nat) (hL : ∀ i ∈ L, i ∈ s.pool)
+    (hre : ∀ i ∈ L, i ∈ C0 ++ blockTxs e (undoTodo e s.pointer dest).2 → (e.tx i).ins ≠ []) :
+    ∃ C', Ledger e (if (XV.Crash.walkCore e s lh dest prune).2 = true then
+          (L.foldl (fun st i => (doTx e st lh i).1) (XV.Crash.walkCore e s lh dest prune).1, true)
+        else ((XV.Crash.walkCore e s lh dest prune).1, false)).1 C' ∧
+      ((if (XV.Crash.walkCore e s lh dest prune).2 = true then
+          (L.foldl (fun st i => (doTx e st lh i).1) (XV.Crash.walkCore e s lh dest prune).1, true)
+        else ((XV.Crash.walkCore e s lh dest prune).1, false)).2 = true →
+        C' = C0 ++ blockTxs e (undoTodo e s.pointer dest).2) := by
+  obtain ⟨C', c1, c2⟩ := walkCore_Ledger e s lh dest prune C C0 h hundo hnd hblk
+  by_cases hok : (XV.Crash.walkCore e s lh dest prune).2 = true
+  · rw [if_pos hok]
+    have hC := c2 hok
+    rw [hC] at c1
+    refine ⟨_, readmit_Ledger e lh L _ _ c1 ?_, fun _ => rfl⟩
+    intro i hi
+    exact ⟨h.led.idEq i (List.mem_append_right _ (hL i hi)), h.poolNonCoinbase i (hL i hi), hre i hi⟩
+  · rw [if_neg hok]
+    exact ⟨C', c1, fun hf => by cases hf⟩
+
+/-- **`walk` keeps the ledger invariant**, whatever its outcome (refused undo, failing block, success) — the general form
+with the dynamic hypothesis `hre`: the pool is rolled back, the blocks that end the confirmed log are undone (`hundo` ties
+the ghost log to the blocks `walk` undoes), the blocks of the new branch are applied (`hnd`, `hblk`: distinct ids not
+confirmed below the fork, award shape), and the rolled-back transactions of `repostList e s` (the old pool without
+`e.skipRepost`; restated from `s.pool` after the repair of `recoverUnconfirmedTx`) are re-submitted (`hre`: a re-submitted
+transaction that the new branch confirms has an input). `walk_Ledger` below discharges `hre` from what the ledger
+guarantees of the skip list. -/
+theorem walk_Ledger_hre (e : Env) (s : St) (lh : Int) (dest : Nat) (prune : Bool) (C C0 : List Nat) (h : Ledger e s C)
+    (hundo : C = C0 ++ blockTxs e (undoTodo e s.pointer dest).1.reverse)
+    (hnd : (C0 ++ blockTxs e (undoTodo e s.pointer dest).2).Nodup)
+    (hblk : ∀ bi ∈ (undoTodo e s.pointer dest).2, (∀ i ∈ (e.block bi).txs, (e.tx i).id = i) ∧
+      (∀ i ∈ (e.block bi).txs, (e.tx i).coinbase = true → (e.tx i).ins = [] ∧ feeOf (e.tx i).outs = 0))
+    (hre : ∀ i ∈ repostList e s, i ∈ C0 ++ blockTxs e (undoTodo e s.pointer dest).2 → (e.tx i).ins ≠ []) :
+    ∃ C', Ledger e (walk e s lh dest prune).1 C' ∧
+      ((walk e s lh dest prune).2 = true → C' = C0 ++ blockTxs e (undoTodo e s.pointer dest).2) := by
+  rw [XV.Crash.walk_eq_core]
+  exact walkL_Ledger e s lh dest prune C C0 h hundo hnd hblk (repostList e s) (repostList_subset e s) hre
+
+/-- **`walk` keeps the ledger invariant — no hypothesis on the re-submitted transactions.** After the repair of
+`recoverUnconfirmedTx` the rolled-back transactions that the ledger records as confirmed on the chain walked to are not
+re-submitted; `hskip` (`SkipsConfirmed`, guaranteed by the driver's `walkEnv`) states that of the environment, and the
+former hypothesis `hre` ("a pending transaction that the new branch confirms has an input") is gone: no re-submitted
+transaction is confirmed on the new branch. (Statement change: the re-admitted pool is `repostList e s`, see `walk`.) -/
+theorem walk_Ledger (e : Env) (s : St) (lh : Int) (dest : Nat) (prune : Bool) (C C0 : List Nat) (h : Ledger e s C)
+    (hundo : C = C0 ++ blockTxs e (undoTodo e s.pointer dest).1.reverse)
+    (hnd : (C0 ++ blockTxs e (undoTodo e s.pointer dest).2).Nodup)
+    (hblk : ∀ bi ∈ (undoTodo e s.pointer dest).2, (∀ i ∈ (e.block bi).txs, (e.tx i).id = i) ∧
+      (∀ i ∈ (e.block bi).txs, (e.tx i).coinbase = true → (e.tx i).ins = [] ∧ feeOf (e.tx i).outs = 0))
+    (hskip : SkipsConfirmed e s (C0 ++ blockTxs e (undoTodo e s.pointer dest).2)) :
+    ∃ C', Ledger e (walk e s lh dest prune).1 C' ∧
+      ((walk e s lh dest prune).2 = true → C' = C0 ++ blockTxs e (undoTodo e s.pointer dest).2) :=
+  walk_Ledger_hre e s lh dest prune C C0 h hundo hnd hblk (fun i hi hc => absurd hc (hskip.not_confirmed i hi))
+
+/-- **the same with the skip list supplied for this walk** (`e.withSkip l`: the environment of the walk is `e` with the
+list `l` the ledger supplies; the invariant is stated in the fixed environment `e` — it does not read the skip list):
+if `l` names every pending transaction that the new branch confirms, the walk keeps the ledger invariant. This is the
+form a history uses, where every walk comes with its own list. -/
+theorem walk_Ledger_withSkip (e : Env) (l : List Nat) (s : St) (lh : Int) (dest : Nat) (prune : Bool) (C C0 : List Nat)
+    (h : Ledger e s C)
+    (hundo : C = C0 ++ blockTxs e (undoTodo e s.pointer dest).1.reverse)
+    (hnd : (C0 ++ blockTxs e (undoTodo e s.pointer dest).2).Nodup)
+    (hblk : ∀ bi ∈ (undoTodo e s.pointer dest).2, (∀ i ∈ (e.block bi).txs, (e.tx i).id = i) ∧
+      (∀ i ∈ (e.block bi).txs, (e.tx i).coinbase = true → (e.tx i).ins = [] ∧ feeOf (e.tx i).outs = 0))
+    (hskip : ∀ i ∈ s.pool, i ∈ C0 ++ blockTxs e (undoTodo e s.pointer dest).2 → i ∈ l) :
+    ∃ C', Ledger e (walk (e.withSkip l) s lh dest prune).1 C' ∧
+      ((walk (e.withSkip l) s lh dest prune).2 = true → C' = C0 ++ blockTxs e (undoTodo e s.pointer dest).2) := by
+  rw [XV.Crash.walk_withSkip]
+  apply walkL_Ledger e s lh dest prune C C0 h hundo hnd hblk _ (fun i hi => (List.mem_filter.mp hi).1)
+  intro i hi hc
+  obtain ⟨hp, hn⟩ := List.mem_filter.mp hi
+  have : i ∈ l := hskip i hp hc
+  simp [this] at hn
 
 /-- what the ledger invariant gives at every reachable state: one row per key; conservation; the total is the supply
 created by the confirmed coinbase transactions; every input of an applied transaction — confirmed or pending — is spent;
@@ -2388,9 +2462,9 @@ theorem walk_PoolInv (e : Env) (s : St) (lh : Int) (dest : Nat) (prune : Bool) (
     (hnd : (C0 ++ blockTxs e (undoTodo e s.pointer dest).2).Nodup)
     (hblk : ∀ bi ∈ (undoTodo e s.pointer dest).2, (∀ i ∈ (e.block bi).txs, (e.tx i).id = i) ∧
       (∀ i ∈ (e.block bi).txs, (e.tx i).coinbase = true → (e.tx i).ins = [] ∧ feeOf (e.tx i).outs = 0))
-    (hre : ∀ i ∈ s.pool, i ∈ C0 ++ blockTxs e (undoTodo e s.pointer dest).2 → (e.tx i).ins ≠ []) :
+    (hskip : SkipsConfirmed e s (C0 ++ blockTxs e (undoTodo e s.pointer dest).2)) :
     PoolInv e (walk e s lh dest prune).1 := by
-  obtain ⟨C', c1, _⟩ := walk_Ledger e s lh dest prune C C0 h hundo hnd hblk hre
+  obtain ⟨C', c1, _⟩ := walk_Ledger e s lh dest prune C C0 h hundo hnd hblk hskip
   exact c1.toPoolInv
 
 -- non-vacuity of `playForMiner_Ledger` / `playForMiner_PoolLive`: the miner packs the award and both pending transactions
@@ -3225,25 +3299,20 @@ theorem readmit_LedgerAll (e : Env) (lh : Int) (pool : List Nat) (st : St) (C : 
     apply ih _ _ (fun j hj => hyp j (List.mem_cons_of_mem _ hj))
     exact doTx_LedgerAll e st lh i C h (fun _ => hyp i List.mem_cons_self)
 
-/-- **`walk` keeps both ledger invariants, over one ghost log**, whatever its outcome: `walk_Ledger` with the key tables.
-The pool is rolled back newest first (nobody read a version written later, so each transaction is undone after its
-readers), the blocks that end the confirmed log are undone, the blocks of the new branch are applied (`hblk` now also asks
-one write per key), the pool is re-submitted. `hre` is weaker than in `walk_Ledger`: a pending transaction that the new
-branch confirms has a token input OR writes a key — either way admission refuses it on re-submission (its input is spent /
-the version it read was superseded by itself). What is left out is exactly the witness of `XV.C01.walk_Ledger_needs_hre`:
-a transaction that spends nothing and writes nothing is re-admitted although the new branch confirmed it. -/
-theorem walk_LedgerK (e : Env) (s : St) (lh : Int) (dest : Nat) (prune : Bool) (C C0 : List Nat)
+/-- **the block part of `walk` (`walkCore`) keeps both ledger invariants, over one ghost log**, whatever its outcome:
+`walkCore_Ledger` with the key tables. The pool is rolled back newest first (nobody read a version written later, so each
+transaction is undone after its readers), the blocks that end the confirmed log are undone, the blocks of the new branch
+are applied (`hblk` now also asks one write per key). -/
+theorem walkCore_LedgerAll (e : Env) (s : St) (lh : Int) (dest : Nat) (prune : Bool) (C C0 : List Nat)
     (h : LedgerAll e s C)
     (hundo : C = C0 ++ blockTxs e (undoTodo e s.pointer dest).1.reverse)
     (hnd : (C0 ++ blockTxs e (undoTodo e s.pointer dest).2).Nodup)
     (hblk : ∀ bi ∈ (undoTodo e s.pointer dest).2, (∀ i ∈ (e.block bi).txs, (e.tx i).id = i) ∧
       (∀ i ∈ (e.block bi).txs, (e.tx i).coinbase = true → (e.tx i).ins = [] ∧ feeOf (e.tx i).outs = 0) ∧
-      (∀ i ∈ (e.block bi).txs, ((e.tx i).kout.map (·.key)).Nodup))
-    (hre : ∀ i ∈ s.pool, i ∈ C0 ++ blockTxs e (undoTodo e s.pointer dest).2 →
-      (e.tx i).ins ≠ [] ∨ (e.tx i).kout ≠ []) :
-    ∃ C', LedgerAll e (walk e s lh dest prune).1 C' ∧
-      ((walk e s lh dest prune).2 = true → C' = C0 ++ blockTxs e (undoTodo e s.pointer dest).2) := by
-  rw [walk_shape]
+      (∀ i ∈ (e.block bi).txs, ((e.tx i).kout.map (·.key)).Nodup)) :
+    ∃ C', LedgerAll e (XV.Crash.walkCore e s lh dest prune).1 C' ∧
+      ((XV.Crash.walkCore e s lh dest prune).2 = true → C' = C0 ++ blockTxs e (undoTodo e s.pointer dest).2) := by
+  unfold XV.Crash.walkCore XV.Crash.rolledBack
   simp only
   -- step 1: roll the pool back
   have hl := h.1.led
@@ -3288,20 +3357,95 @@ theorem walk_LedgerK (e : Env) (s : St) (lh : Int) (dest : Nat) (prune : Bool) (
     have hC1 := u3 hr1
     rw [hC1] at u1
     -- step 3: apply blocks
-    obtain ⟨C2, t1, t2, t3⟩ := todoAll_LedgerAll e lh (undoTodo e s.pointer dest).2 _ C0 u1 u2 hnd hblk
-    cases hr2 : (walk.todoAll e lh (undoTodo e s.pointer dest).2
-        (walk.undoAll e prune (undoTodo e s.pointer dest).1
-          { (s.pool.reverse.foldl (fun st i => undoTx e st (e.tx i)) s) with pool := [] }).1).2 with
-    | false => exact ⟨C2, by simpa [hr2] using t1, by simp [hr2]⟩
-    | true =>
-      simp only [hr2, Bool.not_true, Bool.false_eq_true, ↓reduceIte]
-      have hC2 := t3 hr2
-      rw [hC2] at t1
-      -- step 4: re-submit the pool
-      refine ⟨_, readmit_LedgerAll e lh s.pool _ _ t1 ?_, fun _ => rfl⟩
-      intro i hi
-      exact ⟨hl.idEq i (List.mem_append_right _ hi), hre i hi, h.1.poolNonCoinbase i hi,
-        (hk.wf i (List.mem_append_right _ hi)).koutNodup⟩
+    obtain ⟨C2, t1, _, t3⟩ := todoAll_LedgerAll e lh (undoTodo e s.pointer dest).2 _ C0 u1 u2 hnd hblk
+    exact ⟨C2, t1, t3⟩
+
+/-- **`walk` with ANY re-admission list `L` taken from the old pool keeps both ledger invariants** (see `walkL_Ledger`).
+`hre` is weaker than there: a re-submitted transaction that the new branch confirms has a token input OR writes a key —
+either way admission refuses it on re-submission (its input is spent / the version it read was superseded by itself). -/
+theorem walkL_LedgerAll (e : Env) (s : St) (lh : Int) (dest : Nat) (prune : Bool) (C C0 : List Nat)
+    (h : LedgerAll e s C)
+    (hundo : C = C0 ++ blockTxs e (undoTodo e s.pointer dest).1.reverse)
+    (hnd : (C0 ++ blockTxs e (undoTodo e s.pointer dest).2).Nodup)
+    (hblk : ∀ bi ∈ (undoTodo e s.pointer dest).2, (∀ i ∈ (e.block bi).txs, (e.tx i).id = i) ∧
+      (∀ i ∈ (e.block bi).txs, (e.tx i).coinbase = true → (e.tx i).ins = [] ∧ feeOf (e.tx i).outs = 0) ∧
+      (∀ i ∈ (e.block bi).txs, ((e.tx i).kout.map (·.key)).Nodup))
+    (L : List Nat) (hL : ∀ i ∈ L, i ∈ s.pool)
+    (hre : ∀ i ∈ L, i ∈ C0 ++ blockTxs e (undoTodo e s.pointer dest).2 →
+      (e.tx i).ins ≠ [] ∨ (e.tx i).kout ≠ []) :
+    ∃ C', LedgerAll e (if (XV.Crash.walkCore e s lh dest prune).2 = true then
+          (L.foldl (fun st i => (doTx e st lh i).1) (XV.Crash.walkCore e s lh dest prune).1, true)
+        else ((XV.Crash.walkCore e s lh dest prune).1, false)).1 C' ∧
+      ((if (XV.Crash.walkCore e s lh dest prune).2 = true then
+          (L.foldl (fun st i => (doTx e st lh i).1) (XV.Crash.walkCore e s lh dest prune).1, true)
+        else ((XV.Crash.walkCore e s lh dest prune).1, false)).2 = true →
+        C' = C0 ++ blockTxs e (undoTodo e s.pointer dest).2) := by
+  obtain ⟨C', c1, c2⟩ := walkCore_LedgerAll e s lh dest prune C C0 h hundo hnd hblk
+  by_cases hok : (XV.Crash.walkCore e s lh dest prune).2 = true
+  · rw [if_pos hok]
+    have hC := c2 hok
+    rw [hC] at c1
+    refine ⟨_, readmit_LedgerAll e lh L _ _ c1 ?_, fun _ => rfl⟩
+    intro i hi
+    have hip := hL i hi
+    exact ⟨h.1.led.idEq i (List.mem_append_right _ hip), hre i hi, h.1.poolNonCoinbase i hip,
+      (h.2.wf i (List.mem_append_right _ hip)).koutNodup⟩
+  · rw [if_neg hok]
+    exact ⟨C', c1, fun hf => by cases hf⟩
+
+/-- **`walk` keeps both ledger invariants, over one ghost log**, whatever its outcome: `walk_Ledger_hre` with the key
+tables; the rolled-back transactions of `repostList e s` (the old pool without `e.skipRepost`; restated from `s.pool`
+after the repair of `recoverUnconfirmedTx`) are re-submitted. General form with the dynamic hypothesis `hre`, which is
+weaker than in `walk_Ledger_hre`: a re-submitted transaction that the new branch confirms has a token input OR writes a
+key. What is left out is exactly the witness of `XV.C01.walk_Ledger_needs_skip`: a transaction that spends nothing and
+writes nothing is re-admitted although the new branch confirmed it — unless the skip list names it, see `walk_LedgerK`
+below. -/
+theorem walk_LedgerK_hre (e : Env) (s : St) (lh : Int) (dest : Nat) (prune : Bool) (C C0 : List Nat)
+    (h : LedgerAll e s C)
+    (hundo : C = C0 ++ blockTxs e (undoTodo e s.pointer dest).1.reverse)
+    (hnd : (C0 ++ blockTxs e (undoTodo e s.pointer dest).2).Nodup)
+    (hblk : ∀ bi ∈ (undoTodo e s.pointer dest).2, (∀ i ∈ (e.block bi).txs, (e.tx i).id = i) ∧
+      (∀ i ∈ (e.block bi).txs, (e.tx i).coinbase = true → (e.tx i).ins = [] ∧ feeOf (e.tx i).outs = 0) ∧
+      (∀ i ∈ (e.block bi).txs, ((e.tx i).kout.map (·.key)).Nodup))
+    (hre : ∀ i ∈ repostList e s, i ∈ C0 ++ blockTxs e (undoTodo e s.pointer dest).2 →
+      (e.tx i).ins ≠ [] ∨ (e.tx i).kout ≠ []) :
+    ∃ C', LedgerAll e (walk e s lh dest prune).1 C' ∧
+      ((walk e s lh dest prune).2 = true → C' = C0 ++ blockTxs e (undoTodo e s.pointer dest).2) := by
+  rw [XV.Crash.walk_eq_core]
+  exact walkL_LedgerAll e s lh dest prune C C0 h hundo hnd hblk (repostList e s) (repostList_subset e s) hre
+
+/-- **`walk` keeps both ledger invariants — no hypothesis on the re-submitted transactions**: `walk_LedgerK_hre` with `hre`
+discharged by what the ledger guarantees of the skip list (`hskip`, see `walk_Ledger`). In particular the pure reader
+confirmed by the branch walked to (the witness of `XV.C01.walk_Ledger_needs_skip`) is no longer re-admitted. -/
+theorem walk_LedgerK (e : Env) (s : St) (lh : Int) (dest : Nat) (prune : Bool) (C C0 : List Nat)
+    (h : LedgerAll e s C)
+    (hundo : C = C0 ++ blockTxs e (undoTodo e s.pointer dest).1.reverse)
+    (hnd : (C0 ++ blockTxs e (undoTodo e s.pointer dest).2).Nodup)
+    (hblk : ∀ bi ∈ (undoTodo e s.pointer dest).2, (∀ i ∈ (e.block bi).txs, (e.tx i).id = i) ∧
+      (∀ i ∈ (e.block bi).txs, (e.tx i).coinbase = true → (e.tx i).ins = [] ∧ feeOf (e.tx i).outs = 0) ∧
+      (∀ i ∈ (e.block bi).txs, ((e.tx i).kout.map (·.key)).Nodup))
+    (hskip : SkipsConfirmed e s (C0 ++ blockTxs e (undoTodo e s.pointer dest).2)) :
+    ∃ C', LedgerAll e (walk e s lh dest prune).1 C' ∧
+      ((walk e s lh dest prune).2 = true → C' = C0 ++ blockTxs e (undoTodo e s.pointer dest).2) :=
+  walk_LedgerK_hre e s lh dest prune C C0 h hundo hnd hblk (fun i hi hc => absurd hc (hskip.not_confirmed i hi))
+
+/-- **the same with the skip list supplied for this walk** (see `walk_Ledger_withSkip`) -/
+theorem walk_LedgerK_withSkip (e : Env) (l : List Nat) (s : St) (lh : Int) (dest : Nat) (prune : Bool)
+    (C C0 : List Nat) (h : LedgerAll e s C)
+    (hundo : C = C0 ++ blockTxs e (undoTodo e s.pointer dest).1.reverse)
+    (hnd : (C0 ++ blockTxs e (undoTodo e s.pointer dest).2).Nodup)
+    (hblk : ∀ bi ∈ (undoTodo e s.pointer dest).2, (∀ i ∈ (e.block bi).txs, (e.tx i).id = i) ∧
+      (∀ i ∈ (e.block bi).txs, (e.tx i).coinbase = true → (e.tx i).ins = [] ∧ feeOf (e.tx i).outs = 0) ∧
+      (∀ i ∈ (e.block bi).txs, ((e.tx i).kout.map (·.key)).Nodup))
+    (hskip : ∀ i ∈ s.pool, i ∈ C0 ++ blockTxs e (undoTodo e s.pointer dest).2 → i ∈ l) :
+    ∃ C', LedgerAll e (walk (e.withSkip l) s lh dest prune).1 C' ∧
+      ((walk (e.withSkip l) s lh dest prune).2 = true → C' = C0 ++ blockTxs e (undoTodo e s.pointer dest).2) := by
+  rw [XV.Crash.walk_withSkip]
+  apply walkL_LedgerAll e s lh dest prune C C0 h hundo hnd hblk _ (fun i hi => (List.mem_filter.mp hi).1)
+  intro i hi hc
+  obtain ⟨hp, hn⟩ := List.mem_filter.mp hi
+  have : i ∈ l := hskip i hp hc
+  simp [this] at hn
 
 -- non-vacuity of the key ledger theorems: a whole history with key reads and writes. Transaction 1 only READS "k" (never
 -- written), 2 reads the same version and WRITES "k", 3 spends an output of 2, 4 is independent, 5 reads "k" at the
@@ -3387,7 +3531,7 @@ example : sumU kS6.U + poolFees kEnv kS6.pool = kS6.total ∧ kS6.total = 26 ∧
     (∀ k v, XV.C03.supersedes (kEnv.tx 2) k v → curVer kS6 k ≠ v) :=
   ⟨(LedgerAll.invariants kS6_all).2.1, by decide, (LedgerAll.invariants kS6_all).2.2.2.2.2 2 (by decide)⟩
 
--- the weaker `hre` of `walk_LedgerK` at work: from the same state (pointer 11, pool [4, 5]) a walk to the sibling block
+-- the weaker `hre` of `walk_LedgerK_hre` at work (default environment, nothing skipped): from the same state (pointer 11, pool [4, 5]) a walk to the sibling block
 -- 14 = [8 (award), 2, 5], which confirms the pending transaction 5. Transaction 5 has NO token input, but it writes "k": on
 -- re-submission it is refused (the version "k"@(2,0) it read is superseded — by itself), the pool ends as [4].
 private theorem kS8_ok : (walk kEnv kS6 0 14 false).2 = true := by decide
@@ -3397,12 +3541,26 @@ example :
     LedgerAll kEnv (walk kEnv kS6 0 14 false).1 [100, 8, 2, 5] ∧
     curVer (walk kEnv kS6 0 14 false).1 "k" = some (5, 0) := by
   have g : LedgerAll kEnv (walk kEnv kS6 0 14 false).1 [100, 8, 2, 5] := by
-    obtain ⟨C', c1, c2⟩ := walk_LedgerK kEnv kS6 0 14 false [100, 9, 2] [100] kS6_all (by decide) (by decide)
+    obtain ⟨C', c1, c2⟩ := walk_LedgerK_hre kEnv kS6 0 14 false [100, 9, 2] [100] kS6_all (by decide) (by decide)
       (by decide) (by decide)
     have hC : C' = [100, 8, 2, 5] := (c2 kS8_ok).trans (by decide)
     rw [hC] at c1
     exact c1
   exact ⟨kS8_ok, by decide, by decide, g, by decide⟩
+
+-- the same walk with the skip list the ledger supplies for it ([5]: block 14 confirms the pending transaction 5): 5 is not
+-- even re-submitted; same result, by `walk_LedgerK_withSkip` — no hypothesis on the transactions
+example :
+    (walk (kEnv.withSkip [5]) kS6 0 14 false).2 = true ∧ (walk (kEnv.withSkip [5]) kS6 0 14 false).1.pool = [4] ∧
+    repostList (kEnv.withSkip [5]) kS6 = [4] ∧
+    LedgerAll kEnv (walk (kEnv.withSkip [5]) kS6 0 14 false).1 [100, 8, 2, 5] := by
+  have g : LedgerAll kEnv (walk (kEnv.withSkip [5]) kS6 0 14 false).1 [100, 8, 2, 5] := by
+    obtain ⟨C', c1, c2⟩ := walk_LedgerK_withSkip kEnv [5] kS6 0 14 false [100, 9, 2] [100] kS6_all (by decide)
+      (by decide) (by decide) (by decide)
+    have hC : C' = [100, 8, 2, 5] := (c2 (by decide)).trans (by decide)
+    rw [hC] at c1
+    exact c1
+  exact ⟨by decide, by decide, by decide, g⟩
 
 -- non-vacuity of `playForMiner_LedgerK`: from the pool [1, 2] the miner packs block 13 = [9, 1, 2] (reader before overwriter)
 private def kM2 : St := (doTx kEnv (doTx kEnv kS1 0 1).1 0 2).1
